@@ -215,8 +215,6 @@ def validUtf8 : Bytes → Bool
       | _ => false
     else false
 
-def primitiveNameBytes : List Bytes := primitiveNames.map fun s => s.toUTF8.toList
-
 /-- `Context.LookupTypeNamed` accepts the name. -/
 def validTypeName (n : Bytes) : Bool := validUtf8 n && !(primitiveNameBytes.contains n)
 
@@ -334,8 +332,8 @@ def rdCounted (bs : Bytes) : Except DErr (Bytes × Bytes) :=
   match rdInt bs with
   | .error e => .error e
   | .ok (n, r) =>
-    if n < 0 then .error (.panic "zngio.buffer.read: negative length")
-    else if r.length < n.toNat then .error .bad
+    if n < 0 then .error (.panic "buffer-read-negative-length")
+    else if !hasLen r n.toNat then .error .bad
     else .ok (r.take n.toNat, r.drop n.toNat)
 
 theorem rdCounted_progress {bs s r : Bytes} (h : rdCounted bs = .ok (s, r)) :
@@ -480,8 +478,8 @@ def enterLocal (ctx : Ctx) (t : ZTy) : Except DErr Ctx :=
   let ctx' := (ctx.enter t).1
   if translatable t then .ok ctx' else .error .bad
 
-/-- One typedef, after its code byte. -/
-def decTypedef (ctx : Ctx) (code : Nat) (bs : Bytes) : Except DErr (Ctx × Bytes) :=
+/-- The type one typedef denotes (after its code byte) and the unread rest. -/
+def rdTypedef (ctx : Ctx) (code : Nat) (bs : Bytes) : Except DErr (ZTy × Bytes) :=
   if code = typeDefRecord then
     match rdInt bs with
     | .error e => .error e
@@ -489,31 +487,22 @@ def decTypedef (ctx : Ctx) (code : Nat) (bs : Bytes) : Except DErr (Ctx × Bytes
       match rdFields ctx n.toNat r with
       | .error e => .error e
       | .ok (fs, r2) =>
-        if hasDup (fs.map (·.1)) then .error .bad
-        else match enterLocal ctx (.record (ZFields.ofList fs)) with
-          | .ok c => .ok (c, r2)
-          | .error e => .error e
+        if hasDup (fs.map (·.1)) then .error .bad else .ok (.record (ZFields.ofList fs), r2)
   else if code = typeDefArray then
     match rdType ctx bs with
     | .error e => .error e
-    | .ok (t, r) => match enterLocal ctx (.array t) with
-      | .ok c => .ok (c, r)
-      | .error e => .error e
+    | .ok (t, r) => .ok (.array t, r)
   else if code = typeDefSet then
     match rdType ctx bs with
     | .error e => .error e
-    | .ok (t, r) => match enterLocal ctx (.set t) with
-      | .ok c => .ok (c, r)
-      | .error e => .error e
+    | .ok (t, r) => .ok (.set t, r)
   else if code = typeDefMap then
     match rdType ctx bs with
     | .error e => .error e
     | .ok (k, r) =>
       match rdType ctx r with
       | .error e => .error e
-      | .ok (v, r2) => match enterLocal ctx (.map k v) with
-        | .ok c => .ok (c, r2)
-        | .error e => .error e
+      | .ok (v, r2) => .ok (.map k v, r2)
   else if code = typeDefUnion then
     match rdInt bs with
     | .error e => .error e
@@ -521,35 +510,118 @@ def decTypedef (ctx : Ctx) (code : Nat) (bs : Bytes) : Except DErr (Ctx × Bytes
       if n = 0 then .error .bad
       else match rdTypes ctx n.toNat r with
         | .error e => .error e
-        | .ok (ts, r2) => match enterLocal ctx (.union (ZTys.ofList (sortTys ts))) with
-          | .ok c => .ok (c, r2)
-          | .error e => .error e
+        | .ok (ts, r2) => .ok (.union (ZTys.ofList (sortTys ts)), r2)
   else if code = typeDefEnum then
     match rdInt bs with
     | .error e => .error e
     | .ok (n, r) =>
       match rdSyms n.toNat r with
       | .error e => .error e
-      | .ok (ss, r2) => match enterLocal ctx (.enum ss) with
-        | .ok c => .ok (c, r2)
-        | .error e => .error e
+      | .ok (ss, r2) => .ok (.enum ss, r2)
   else if code = typeDefName then
     match rdCounted bs with
     | .error e => .error e
     | .ok (name, r) =>
       match rdType ctx r with
       | .error e => .error e
-      | .ok (t, r2) =>
-        if !validTypeName name then .error .bad
-        else match enterLocal ctx (.named name t) with
-          | .ok c => .ok (c, r2)
-          | .error e => .error e
+      | .ok (t, r2) => if !validTypeName name then .error .bad else .ok (.named name t, r2)
   else if code = typeDefError then
     match rdType ctx bs with
     | .error e => .error e
-    | .ok (t, r) => match enterLocal ctx (.error t) with
-      | .ok c => .ok (c, r)
-      | .error e => .error e
+    | .ok (t, r) => .ok (.error t, r)
   else .error .bad
+
+theorem rdTypedef_progress {ctx : Ctx} {code : Nat} {bs r : Bytes} {t : ZTy}
+    (h : rdTypedef ctx code bs = .ok (t, r)) : r.length ≤ bs.length := by
+  unfold rdTypedef at h
+  split at h
+  · split at h
+    · cases h
+    · rename_i n r1 h1
+      split at h
+      · cases h
+      · rename_i fs r2 h2
+        split at h
+        · cases h
+        · cases h; have := rdInt_progress h1; have := (rdFields_progress h2).1; omega
+  split at h
+  · split at h
+    · cases h
+    · rename_i h1; cases h; exact Nat.le_of_lt (rdType_progress h1)
+  split at h
+  · split at h
+    · cases h
+    · rename_i h1; cases h; exact Nat.le_of_lt (rdType_progress h1)
+  split at h
+  · split at h
+    · cases h
+    · rename_i h1
+      split at h
+      · cases h
+      · rename_i h2; cases h; have := rdType_progress h1; have := rdType_progress h2; omega
+  split at h
+  · split at h
+    · cases h
+    · rename_i n r1 h1
+      split at h
+      · cases h
+      · split at h
+        · cases h
+        · rename_i h2; cases h; have := rdInt_progress h1; have := (rdTypes_progress h2).1; omega
+  split at h
+  · split at h
+    · cases h
+    · rename_i n r1 h1
+      split at h
+      · cases h
+      · rename_i h2; cases h; have := rdInt_progress h1; have := (rdSyms_progress h2).1; omega
+  split at h
+  · split at h
+    · cases h
+    · rename_i h1
+      split at h
+      · cases h
+      · rename_i h2
+        split at h
+        · cases h
+        · cases h; have := rdCounted_progress h1; have := rdType_progress h2; omega
+  split at h
+  · split at h
+    · cases h
+    · rename_i h1; cases h; exact Nat.le_of_lt (rdType_progress h1)
+  · cases h
+
+/-- One typedef, after its code byte: the new context and the unread rest. -/
+def decTypedef (ctx : Ctx) (code : Nat) (bs : Bytes) : Except DErr (Ctx × Bytes) :=
+  match rdTypedef ctx code bs with
+  | .error e => .error e
+  | .ok (t, r) =>
+    match enterLocal ctx t with
+    | .error e => .error e
+    | .ok c => .ok (c, r)
+
+theorem decTypedef_progress {ctx ctx' : Ctx} {code : Nat} {bs r : Bytes}
+    (h : decTypedef ctx code bs = .ok (ctx', r)) : r.length ≤ bs.length := by
+  unfold decTypedef at h
+  split at h
+  · cases h
+  · rename_i t r1 h1
+    split at h
+    · cases h
+    · cases h; exact rdTypedef_progress h1
+
+/-- `Decoder.decode`: typedefs until the buffer is empty.  Terminates because every
+    iteration consumes the code byte. -/
+def decTypedefs (ctx : Ctx) (bs : Bytes) : Except DErr Ctx :=
+  match bs with
+  | [] => .ok ctx
+  | code :: rest =>
+    match h : decTypedef ctx code.toNat rest with
+    | .error e => .error e
+    | .ok (ctx', r) =>
+      have : r.length < (code :: rest).length := by
+        have := decTypedef_progress h; simp; omega
+      decTypedefs ctx' r
+termination_by bs.length
 
 end Zed.Zng
